@@ -80,7 +80,7 @@ def gen_inputs(tier, rng):
         nb = sum(1 for y in range(H) for x in range(W) if m[y][x] and any(
             not m[yy][xx] for yy in range(max(0, y - kh // 2), min(H, y + kh // 2 + 1))
             for xx in range(max(0, x - kw // 2), min(W, x + kw // 2 + 1))))
-        if i % 4 == 3 and nun + nb <= 14:
+        if i % 6 == 3 and nun + nb <= 14:
             for k in range(nun + nb):
                 yield {"op": "convolve", "m": m, "K": [[str(v) for v in r] for r in K], "seed": seed, "sparse": False, "basis": k}
     # malformed stream: even kernels, footprints leaving the frame
